@@ -19,15 +19,13 @@ import PylxProofs.C13ParseA
 import PylxProofs.C13ParseB
 import PylxProofs.C13ParseC
 import PylxProofs.C13ParseD
+import PylxProofs.C13ParseE
 namespace Pylx.C13
 open Pylx Pylx.EncB
 
 /-! ### classifier -/
 
-theorem defaults_classified : Gen.uni2latexChunks.all (fun ch => ch.all (entryClassified [])) = true := by
-  decide +kernel
-theorem xml_classified : Gen.uni2latexXmlChunks.all (fun ch => ch.all (entryClassified f19)) = true := by
-  decide +kernel
+-- `defaults_classified`, `xml_classified`: PylxProofs/C13ParseE.lean (kernel evaluation in slices)
 
 def skipOf : Table → List Nat
   | .defaults => []
@@ -71,10 +69,78 @@ theorem table_parses (tb : Table) : ∀ e ∈ rawTable tb, entryParses (skipOf t
     exact raw_all (tb := .xml) this e he
 
 set_option maxRecDepth 100000 in
-/-- pass-through ASCII characters without a rule (letters, digits, punctuation, space, DEL, `\n \r \t`) -/
+theorem copy_parses_d0 : (((List.range 128).drop 0).take 16).all (fun k =>
+    !isCopyChar (Char.ofNat k) || ((tableOf .defaults).lookup k).isSome || okParse [] [Char.ofNat k]) = true := by decide +kernel
+
+set_option maxRecDepth 100000 in
+theorem copy_parses_d1 : (((List.range 128).drop 16).take 16).all (fun k =>
+    !isCopyChar (Char.ofNat k) || ((tableOf .defaults).lookup k).isSome || okParse [] [Char.ofNat k]) = true := by decide +kernel
+
+set_option maxRecDepth 100000 in
+theorem copy_parses_d2 : (((List.range 128).drop 32).take 16).all (fun k =>
+    !isCopyChar (Char.ofNat k) || ((tableOf .defaults).lookup k).isSome || okParse [] [Char.ofNat k]) = true := by decide +kernel
+
+set_option maxRecDepth 100000 in
+theorem copy_parses_d3 : (((List.range 128).drop 48).take 16).all (fun k =>
+    !isCopyChar (Char.ofNat k) || ((tableOf .defaults).lookup k).isSome || okParse [] [Char.ofNat k]) = true := by decide +kernel
+
+set_option maxRecDepth 100000 in
+theorem copy_parses_d4 : (((List.range 128).drop 64).take 16).all (fun k =>
+    !isCopyChar (Char.ofNat k) || ((tableOf .defaults).lookup k).isSome || okParse [] [Char.ofNat k]) = true := by decide +kernel
+
+set_option maxRecDepth 100000 in
+theorem copy_parses_d5 : (((List.range 128).drop 80).take 16).all (fun k =>
+    !isCopyChar (Char.ofNat k) || ((tableOf .defaults).lookup k).isSome || okParse [] [Char.ofNat k]) = true := by decide +kernel
+
+set_option maxRecDepth 100000 in
+theorem copy_parses_d6 : (((List.range 128).drop 96).take 16).all (fun k =>
+    !isCopyChar (Char.ofNat k) || ((tableOf .defaults).lookup k).isSome || okParse [] [Char.ofNat k]) = true := by decide +kernel
+
+set_option maxRecDepth 100000 in
+theorem copy_parses_d7 : (((List.range 128).drop 112).take 16).all (fun k =>
+    !isCopyChar (Char.ofNat k) || ((tableOf .defaults).lookup k).isSome || okParse [] [Char.ofNat k]) = true := by decide +kernel
+
+set_option maxRecDepth 100000 in
+theorem copy_parses_x0 : (((List.range 128).drop 0).take 16).all (fun k =>
+    !isCopyChar (Char.ofNat k) || ((tableOf .xml).lookup k).isSome || okParse [] [Char.ofNat k]) = true := by decide +kernel
+
+set_option maxRecDepth 100000 in
+theorem copy_parses_x1 : (((List.range 128).drop 16).take 16).all (fun k =>
+    !isCopyChar (Char.ofNat k) || ((tableOf .xml).lookup k).isSome || okParse [] [Char.ofNat k]) = true := by decide +kernel
+
+set_option maxRecDepth 100000 in
+theorem copy_parses_x2 : (((List.range 128).drop 32).take 16).all (fun k =>
+    !isCopyChar (Char.ofNat k) || ((tableOf .xml).lookup k).isSome || okParse [] [Char.ofNat k]) = true := by decide +kernel
+
+set_option maxRecDepth 100000 in
+theorem copy_parses_x3 : (((List.range 128).drop 48).take 16).all (fun k =>
+    !isCopyChar (Char.ofNat k) || ((tableOf .xml).lookup k).isSome || okParse [] [Char.ofNat k]) = true := by decide +kernel
+
+set_option maxRecDepth 100000 in
+theorem copy_parses_x4 : (((List.range 128).drop 64).take 16).all (fun k =>
+    !isCopyChar (Char.ofNat k) || ((tableOf .xml).lookup k).isSome || okParse [] [Char.ofNat k]) = true := by decide +kernel
+
+set_option maxRecDepth 100000 in
+theorem copy_parses_x5 : (((List.range 128).drop 80).take 16).all (fun k =>
+    !isCopyChar (Char.ofNat k) || ((tableOf .xml).lookup k).isSome || okParse [] [Char.ofNat k]) = true := by decide +kernel
+
+set_option maxRecDepth 100000 in
+theorem copy_parses_x6 : (((List.range 128).drop 96).take 16).all (fun k =>
+    !isCopyChar (Char.ofNat k) || ((tableOf .xml).lookup k).isSome || okParse [] [Char.ofNat k]) = true := by decide +kernel
+
+set_option maxRecDepth 100000 in
+theorem copy_parses_x7 : (((List.range 128).drop 112).take 16).all (fun k =>
+    !isCopyChar (Char.ofNat k) || ((tableOf .xml).lookup k).isSome || okParse [] [Char.ofNat k]) = true := by decide +kernel
+
+theorem range128_split : List.range 128 = (((List.range 128).drop 0).take 16) ++ (((List.range 128).drop 16).take 16) ++ (((List.range 128).drop 32).take 16) ++ (((List.range 128).drop 48).take 16) ++ (((List.range 128).drop 64).take 16) ++ (((List.range 128).drop 80).take 16) ++ (((List.range 128).drop 96).take 16) ++ (((List.range 128).drop 112).take 16) := by decide
+
+/-- pass-through ASCII characters without a rule (letters, digits, punctuation, space, DEL, `\n \r \t`); evaluated in
+    slices of 16 characters per declaration (the kernel frees its memory between declarations) -/
 theorem copy_parses (tb : Table) : (List.range 128).all (fun k =>
     !isCopyChar (Char.ofNat k) || ((tableOf tb).lookup k).isSome || okParse [] [Char.ofNat k]) = true := by
-  cases tb <;> decide +kernel
+  cases tb
+  · rw [range128_split]; simp only [List.all_append, copy_parses_d0, copy_parses_d1, copy_parses_d2, copy_parses_d3, copy_parses_d4, copy_parses_d5, copy_parses_d6, copy_parses_d7, Bool.and_self]
+  · rw [range128_split]; simp only [List.all_append, copy_parses_x0, copy_parses_x1, copy_parses_x2, copy_parses_x3, copy_parses_x4, copy_parses_x5, copy_parses_x6, copy_parses_x7, Bool.and_self]
 
 theorem encode_single_rule {tb : Table} {pr : Prot} {pol : Policy} {c : Char} {r : Str}
     (hl : (tableOf tb).lookup c.toNat = some r) :
